@@ -200,6 +200,8 @@ class LibsModel:
             return const(None)
         if qual == 'weakref.ref':
             return AV(ty='weakref', of=args[0] if args else None, deps=d)
+        if qual == 'functools.partial' and args:
+            return AV(ty='partial', target=args[0], pargs=list(args[1:]), pkwargs=dict(kwargs), deps=d)
         if qual.startswith('functools.'):
             return AV(ty='decorator', qual=qual, args=args)
         if qual == 're.compile':
@@ -587,8 +589,9 @@ class LibsModel:
                 return const(None)
             if name == 'copy':
                 return recv.w(fresh=True, copied=True)
-            if name == 'remove_node':
+            if name in ('remove_node', 'remove_nodes_from', 'remove_edge', 'remove_edges_from', 'clear', 'clear_edges', 'update'):
                 interp.emit('graph_mutation', node, graph=recv, name=name)
+                interp.emit('store', node, kind='method:' + name, base=recv, index=None, value=None, stmt=None)
                 return const(None)
             if name == 'get_edge_data':
                 return AV(ty='dict', deps=d, maybe_none=True)
